@@ -21,14 +21,14 @@ import (
 
 // ProvCfg is the generated provider configuration.
 type ProvCfg struct {
-	Router        string            `json:"router"`      // provider | legacy
-	IssuerMode    string            `json:"issuer_mode"` // static | host
-	Host          string            `json:"host"`        // Host header of the logout request
-	Extras        bool              `json:"extras"`      // storage implements CanTerminateSessionFromRequest
-	DefaultLogout string            `json:"default_logout"`
-	Sign          vkit.SignKeySpec  `json:"sign"`
-	ExtraPub      *vkit.PubKeySpec  `json:"extra_pub,omitempty"` // second published signing key (rotation)
-	Method        string            `json:"method"`              // GET | POST
+	Router        string           `json:"router"`      // provider | legacy
+	IssuerMode    string           `json:"issuer_mode"` // static | host
+	Host          string           `json:"host"`        // Host header of the logout request
+	Extras        bool             `json:"extras"`      // storage implements CanTerminateSessionFromRequest
+	DefaultLogout string           `json:"default_logout"`
+	Sign          vkit.SignKeySpec `json:"sign"`
+	ExtraPub      *vkit.PubKeySpec `json:"extra_pub,omitempty"` // second published signing key (rotation)
+	Method        string           `json:"method"`              // GET | POST
 	// Mount: how the end-session endpoint is served for the request under test ("" = the router above; see mount_test.go)
 	Mount string `json:"mount,omitempty"`
 }
@@ -65,14 +65,14 @@ type Hint struct {
 }
 
 type Case struct {
-	ErrStyle string `json:"err_style,omitempty"` // how the storage words its own refusals (vkit.Store.refuse)
+	ErrStyle string            `json:"err_style,omitempty"` // how the storage words its own refusals (vkit.Store.refuse)
 	Prov     ProvCfg           `json:"prov"`
 	Clients  []vkit.ClientSpec `json:"clients"` // client-a, client-b
 	Hint     Hint              `json:"hint"`
 	ClientID string            `json:"client_id,omitempty"`
 	URI      string            `json:"uri,omitempty"`
 	OmitURI  bool              `json:"omit_uri,omitempty"`
-	Relation string            `json:"relation"` // how URI was derived (label only)
+	Relation string            `json:"relation"`          // how URI was derived (label only)
 	Prelude  string            `json:"prelude,omitempty"` // an earlier, unrelated logout on the same provider: "" | otherhost | samehost
 	State    string            `json:"state,omitempty"`
 	// Neighbour: a second provider in the same process (own storage, own registrations of client-a / client-b, own signing
@@ -82,8 +82,18 @@ type Case struct {
 	History []PreOp `json:"history,omitempty"`
 	// Extra: further request parameters the statement gives no authority to (logout_hint, ui_locales, unknown names), in order
 	Extra []Param `json:"extra,omitempty"`
+	// Faults: storage failures while the request under test is served (earlier requests run against a healthy storage)
+	Faults []FaultSpec `json:"faults,omitempty"`
 	// Par: the case is a concurrent step (TestInterleave, see interleave_test.go); Hint / ClientID / URI / State above are unused then
 	Par *Par `json:"par,omitempty"`
+}
+
+// FaultSpec: every call of Method made for the request under test fails the way Kind says (vkit.Fault kinds: a plain
+// error, a deadline, "partial" = the call took effect / computed its result and reports an error all the same, a
+// ready-made *oidc.Error, library sentinels).
+type FaultSpec struct {
+	Method string `json:"method"` // GetClientByClientID | KeySet | Terminate (resolved to the method the storage offers)
+	Kind   string `json:"kind"`
 }
 
 // Param is one additional request parameter.
@@ -565,7 +575,59 @@ func genCase(t *rapid.T) Case {
 	if rapid.IntRange(0, 9).Draw(t, "extraparams") < 3 {
 		c.Extra = genExtra(t, c.Clients, "x-")
 	}
+	// storage failures while the request is served (drawn last as well)
+	if rapid.IntRange(0, 9).Draw(t, "faulted") < 2 {
+		c.Faults = genFaults(t, "f")
+	}
 	return c
+}
+
+var (
+	faultMethods = []string{"GetClientByClientID", "GetClientByClientID", "GetClientByClientID", "KeySet", "Terminate", "Terminate"}
+	faultKinds   = append([]string{"error", "error", "error", "deadline", "partial", "partial", "oidc", "oidc-wrapped"}, vkit.SentinelFaultKinds...)
+)
+
+func genFaults(t *rapid.T, label string) []FaultSpec {
+	fs := []FaultSpec{{Method: rapid.SampledFrom(faultMethods).Draw(t, label+"0.method"), Kind: rapid.SampledFrom(faultKinds).Draw(t, label+"0.kind")}}
+	if rapid.IntRange(0, 5).Draw(t, label+"two") == 0 {
+		fs = append(fs, FaultSpec{Method: rapid.SampledFrom(faultMethods).Draw(t, label+"1.method"), Kind: rapid.SampledFrom(faultKinds).Draw(t, label+"1.kind")})
+	}
+	return fs
+}
+
+// resolveFaults turns the symbolic plan into the store's (first entry for a method wins, as in the store).
+func resolveFaults(fs []FaultSpec, extras bool) []vkit.Fault {
+	var out []vkit.Fault
+	for _, f := range fs {
+		m := f.Method
+		if m == "Terminate" {
+			m = "TerminateSession"
+			if extras {
+				m = "TerminateSessionFromRequest"
+			}
+		}
+		out = append(out, vkit.Fault{Method: m, Kind: f.Kind})
+	}
+	return out
+}
+
+// firedFaults: the injected failures the request actually ran into (method -> kind), from the storage journal.
+func firedFaults(calls []vkit.JEntry, plan []vkit.Fault) map[string]string {
+	fired := map[string]string{}
+	for _, e := range calls {
+		if !e.Fault {
+			continue
+		}
+		for _, f := range plan {
+			if f.Method == e.Method {
+				if _, ok := fired[e.Method]; !ok {
+					fired[e.Method] = f.Kind
+				}
+				break
+			}
+		}
+	}
+	return fired
 }
 
 // Further request parameters: those RP-initiated logout defines besides the statement's (logout_hint, ui_locales) and
@@ -1513,11 +1575,18 @@ func run(c Case) (res *vkit.Result) {
 	ag := vkit.NewAgent(reqSUT)
 	ag.Host = c.Prov.Host
 	var r *vkit.Resp
+	faults := c.Faults
+	if len(faults) > 3 {
+		faults = faults[:3]
+	}
+	plan := resolveFaults(faults, c.Prov.Extras)
+	st.SetFaults(plan...)
 	if c.Prov.Method == "POST" {
 		r = ag.Post(sut.Paths["end_session"], q, nil)
 	} else {
 		r = ag.EndSession(q)
 	}
+	st.SetFaults()
 	elapsed := time.Since(now)
 
 	// ---- the model and the observation
@@ -1528,6 +1597,7 @@ func run(c Case) (res *vkit.Result) {
 		}
 	}
 	jin := judgeIn{prov: c.Prov, byID: byID, hf: hf, hintStr: hintStr, hintLabel: hintLabel, clientID: c.ClientID, uri: c.URI, state: c.State, extra: c.Extra, noIssuerCtx: noIssuerCtx}
+	jin.fired = firedFaults(st.CallsOf(r.Req), plan)
 	v := expect(jin)
 	observe(res, jin, v, r, term, true)
 	ex, provenID, outcome, matched := v.ex, v.provenID, v.outcome, v.matched
@@ -1623,11 +1693,38 @@ func run(c Case) (res *vkit.Result) {
 		}
 	}
 	res.Label("extra-params:" + extraClass)
+	faultClass := "none"
+	if len(plan) > 0 {
+		faultClass = "not-reached"
+		hs := "no-hint"
+		if hf.present {
+			hs = "hint:" + hf.status
+		}
+		for _, f := range plan {
+			if k, ok := jin.fired[f.Method]; ok && k == f.Kind {
+				faultClass = "fired"
+				res.Label("fault:"+f.Method, "fault-kind:"+f.Kind, "fault:"+f.Method+"/"+hs+"/"+outLabel)
+			}
+		}
+		if len(jin.fired) > 1 {
+			res.Label("fault:two-methods-failed")
+		}
+	}
+	res.Label("faults:" + faultClass)
 	if noIssuerCtx && hf.present {
 		res.Label("no-issuer-context/hint:" + hf.status + ":" + strings.SplitN(hf.why, "+", 2)[0] + "/" + outLabel)
 	}
 	res.NonTrivial = hf.present || (c.ClientID != "" && c.URI != "")
 	res.Key = fmt.Sprintf("%s|x=%v|%s|%s|%s|%s|cid=%s|%s|%s|%s|st=%s|%s|xp=%s", c.Prov.Router+"/"+mountName(c.Prov)+"/"+app, c.Prov.Extras, c.Prov.Method, c.Prov.IssuerMode, c.Prov.Sign.Alg, hintLabel, cidRel, c.Relation, why0, expectLabel, classOfState(c.State), outLabel, extraClass)
+	if len(jin.fired) > 0 {
+		var fk []string
+		for _, f := range plan {
+			if _, ok := jin.fired[f.Method]; ok {
+				fk = append(fk, f.Method+":"+f.Kind)
+			}
+		}
+		res.Key += "|faults=" + strings.Join(fk, ",")
+	}
 	res.Info = map[string]any{"hint": hintLabel, "expect": expectLabel, "why": ex.why, "status": r.Status, "location": r.Location(), "terminate": term, "proven_client": provenID, "mount": mountName(c.Prov)}
 	return res
 }
@@ -1656,9 +1753,9 @@ func directAPI(res *vkit.Result, c Case, cls []*vkit.ClientSpec) {
 
 var prop = vkit.Prop[Case]{
 	ID: "C18",
-	Rule: "cases = provider (router x issuer static/per-host x request host x TerminateSessionFromRequest capability x default logout URI x signing key/alg x optional second published key x GET/POST) x mounting of the end-session endpoint for the request under test (60% the router itself; 40% built from the same provider object through the exported API: op.RegisterServer(op.NewLegacyServer(..)) / the handler function op.EndSession on the application's mux / the application's own handler of op.ParseEndSessionRequest + op.ValidateEndSessionRequest, each without any issuer middleware and with op.NewIssuerInterceptor(provider.IssuerFromRequest) (Handler / HandlerFunc / WithHTTPMiddleware) or op.ContextWithIssuer in front; soundness (bad signature / foreign issuer / contradicting client_id never honoured, redirect target, terminated session) is asserted identically on every mounting, completeness for presented hints only where the context carries an issuer; a hint without iss on a mounting without issuer context is grey) x two generated client registrations (application type web / native / user_agent, dev mode, 0-3 post-logout URIs from a grammar incl. queries/fragments/custom schemes/'*'-containing exact entries, 0-2 post-logout globs with or without opt-in, authorization-only globs, 0-2 loopback post-logout URIs (http/https x 127.0.0.1/localhost/[::1] x port), native clients also loopback and custom-scheme authorization redirects) x id_token_hint (absent, empty, issued by the provider through an implicit or code flow (also at another host), forged with the provider's key: unexpired / expired / signed by a rotated published key / azp-less / unknown azp; signed by an unpublished key; 7 tamperings; 7 wrong issuers; kid / alg / claim oddities (grey); garbage) x client_id (absent, azp, other client, unknown) x the earlier life of the process (40% of the cases: a neighbouring provider in the same process with its own storage / registrations / signing key published under the SAME kid and the same or an own issuer; 0-3 earlier events in generated order: ordinary logouts and implicit flows + logout at this provider (either host, hint signed by any published key) or at the neighbour, key changes of this provider's storage: rotation with the old key kept / withdrawn (new or same kid), withdrawal of the second published key; hints signed by the neighbour's key under this provider's kid or by a key the storage has withdrawn (also real ID tokens issued before the withdrawal) are must-reject: 'validly signed' = under a key the storage serves at the time of the request) x post_logout_redirect_uri (registered, other client's, 20 near-miss relations, loopback variants of a registered loopback URI (other/no port, other loopback host spelling, other scheme, all three; port variant of an authorization-only loopback redirect) which are must-not-redirect for every application type, glob hit/miss/literal, default, omitted) x arbitrary state x further request parameters (30% of the cases: 1-3 of logout_hint / ui_locales (defined by RP-initiated logout, no authority in the statement) and names no specification of the endpoint knows (login_hint, sub, user_id, UserID, sid, azp, aud, redirect_uri, id_token, ...), values naming users / clients / registered (for logout or for authorization) and foreign URIs / locales / arbitrary strings - weighted by what the name suggests: user-like names mostly get user ids, client-like names client ids, uri-like names URIs - with and without id_token_hint: the Location and the terminated session are judged as without them - the journal must name the hint's subject (without a hint: no user) and the proven client; must-accept is kept with the spec-defined parameters, dropped with unknown names); " +
+	Rule: "cases = provider (router x issuer static/per-host x request host x TerminateSessionFromRequest capability x default logout URI x signing key/alg x optional second published key x GET/POST) x mounting of the end-session endpoint for the request under test (60% the router itself; 40% built from the same provider object through the exported API: op.RegisterServer(op.NewLegacyServer(..)) / the handler function op.EndSession on the application's mux / the application's own handler of op.ParseEndSessionRequest + op.ValidateEndSessionRequest, each without any issuer middleware and with op.NewIssuerInterceptor(provider.IssuerFromRequest) (Handler / HandlerFunc / WithHTTPMiddleware) or op.ContextWithIssuer in front; soundness (bad signature / foreign issuer / contradicting client_id never honoured, redirect target, terminated session) is asserted identically on every mounting, completeness for presented hints only where the context carries an issuer; a hint without iss on a mounting without issuer context is grey) x two generated client registrations (application type web / native / user_agent, dev mode, 0-3 post-logout URIs from a grammar incl. queries/fragments/custom schemes/'*'-containing exact entries, 0-2 post-logout globs with or without opt-in, authorization-only globs, 0-2 loopback post-logout URIs (http/https x 127.0.0.1/localhost/[::1] x port), native clients also loopback and custom-scheme authorization redirects) x id_token_hint (absent, empty, issued by the provider through an implicit or code flow (also at another host), forged with the provider's key: unexpired / expired / signed by a rotated published key / azp-less / unknown azp; signed by an unpublished key; 7 tamperings; 7 wrong issuers; kid / alg / claim oddities (grey); garbage) x client_id (absent, azp, other client, unknown) x the earlier life of the process (40% of the cases: a neighbouring provider in the same process with its own storage / registrations / signing key published under the SAME kid and the same or an own issuer; 0-3 earlier events in generated order: ordinary logouts and implicit flows + logout at this provider (either host, hint signed by any published key) or at the neighbour, key changes of this provider's storage: rotation with the old key kept / withdrawn (new or same kid), withdrawal of the second published key; hints signed by the neighbour's key under this provider's kid or by a key the storage has withdrawn (also real ID tokens issued before the withdrawal) are must-reject: 'validly signed' = under a key the storage serves at the time of the request) x post_logout_redirect_uri (registered, other client's, 20 near-miss relations, loopback variants of a registered loopback URI (other/no port, other loopback host spelling, other scheme, all three; port variant of an authorization-only loopback redirect) which are must-not-redirect for every application type, glob hit/miss/literal, default, omitted) x arbitrary state x further request parameters (30% of the cases: 1-3 of logout_hint / ui_locales (defined by RP-initiated logout, no authority in the statement) and names no specification of the endpoint knows (login_hint, sub, user_id, UserID, sid, azp, aud, redirect_uri, id_token, ...), values naming users / clients / registered (for logout or for authorization) and foreign URIs / locales / arbitrary strings - weighted by what the name suggests: user-like names mostly get user ids, client-like names client ids, uri-like names URIs - with and without id_token_hint: the Location and the terminated session are judged as without them - the journal must name the hint's subject (without a hint: no user) and the proven client; must-accept is kept with the spec-defined parameters, dropped with unknown names) x storage faults while the request under test is served (20-30% of the cases: every GetClientByClientID / KeySet / TerminateSession(FromRequest) call of that request - one method, 1 in 6 two - fails as a plain error / deadline / 'partial' (effect or result plus error) / ready-made *oidc.Error (also wrapped) / one of 9 library sentinels (context.Canceled, ErrInvalidRefreshToken, ErrKeyNone, access_denied, slow_down, authorization_pending ...); a fault that fired drops must-accept only: must-reject stays, a redirect must still go to an allowed target - only the default when the client lookup failed without a result - and must be backed by exactly one termination call naming the hint's subject and its authorized party; a refusal may show the failed termination call and no other); " +
 		"oracle = independent model of (hint validity, proven client, registration) -> must-accept(requested|default) / must-reject / default-or-reject, Location compared as a user agent reads it (same URI, existing query kept, exactly one state=<state>), journal of TerminateSession*; sane registrations only (absolute URIs, glob patterns with '*' only); " +
-		"non-trivial = a hint is presented, or client_id together with a post_logout_redirect_uri; distinct = (router, mounting, application type, capability, method, issuer mode, alg, hint class, client_id relation, URI relation, model reason, expectation, state class, outcome, class of further parameters); concurrent steps: see TestInterleave",
+		"non-trivial = a hint is presented, or client_id together with a post_logout_redirect_uri; distinct = (router, mounting, application type, capability, method, issuer mode, alg, hint class, client_id relation, URI relation, model reason, expectation, state class, outcome, class of further parameters, faults that fired (method:kind)); concurrent steps: see TestInterleave",
 	Gen: genCase,
 	Run: run,
 }
